@@ -1270,6 +1270,8 @@ func (w *responseWriter) writeHeader(statusCode int) {
 	// Remove other headers that might mess up the next leg
 	w.Header().Del("Content-Encoding")
 	w.Header().Del("Accept-Encoding")
+	// (a transfer coding describes the body the handler writes, not the one sent on)
+	w.Header().Del("Transfer-Encoding")
 
 	w.respMeta = &respMeta
 	if respMeta.compression == CompressionIdentity {
